@@ -431,6 +431,12 @@ pub fn shrink_cli(start: &CliCase, fails: &mut dyn FnMut(&CliCase) -> bool, max_
             }
         }
         // smaller input: remove chunks of decreasing size
+        if let InState::Fifo(b) = &cur.input {
+            // a regular file is the simpler world
+            let mut c = cur.clone();
+            c.input = InState::Present(b.clone());
+            progress |= attempt(&mut cur, c, &mut evals);
+        }
         if let InState::Present(b) = &cur.input {
             let mut data = b.clone();
             let mut chunk = (data.len() / 2).max(1);
